@@ -84,3 +84,121 @@ func topFn(fn *ssa.Function) *ssa.Function {
 	}
 	return fn
 }
+
+// ---------------------------------------------------------------- caller closure
+
+// callerIndex maps every library function to the functions that call it or take its value.
+func (p *Prog) callerIndex() map[*ssa.Function]map[*ssa.Function]bool {
+	if p.callers != nil {
+		return p.callers
+	}
+	idx := map[*ssa.Function]map[*ssa.Function]bool{}
+	add := func(callee, caller *ssa.Function) {
+		if callee == nil {
+			return
+		}
+		if idx[callee] == nil {
+			idx[callee] = map[*ssa.Function]bool{}
+		}
+		idx[callee][caller] = true
+	}
+	var fns []*ssa.Function
+	for _, pk := range p.All {
+		if pk.Module != nil && pk.Module.Path == modPath {
+			if sp := p.SSA.Package(pk.Types); sp != nil {
+				fns = append(fns, pkgFunctions(sp)...)
+			}
+		}
+	}
+	for _, f := range fns {
+		for _, b := range f.Blocks {
+			for _, in := range b.Instrs {
+				for _, op := range in.Operands(nil) {
+					if op == nil || *op == nil {
+						continue
+					}
+					switch v := (*op).(type) {
+					case *ssa.Function:
+						add(v, f)
+						// bound-method / thunk wrappers stand for the method they wrap
+						if v.Synthetic != "" {
+							for _, bb := range v.Blocks {
+								for _, ii := range bb.Instrs {
+									if ci, ok := ii.(ssa.CallInstruction); ok {
+										if sc := ci.Common().StaticCallee(); sc != nil {
+											add(sc, f)
+										}
+									}
+								}
+							}
+						}
+					case *ssa.MakeClosure:
+						fn := v.Fn.(*ssa.Function)
+						add(fn, f)
+						if fn.Synthetic != "" {
+							for _, bb := range fn.Blocks {
+								for _, ii := range bb.Instrs {
+									if ci, ok := ii.(ssa.CallInstruction); ok {
+										if sc := ci.Common().StaticCallee(); sc != nil {
+											add(sc, f)
+										}
+									}
+								}
+							}
+						}
+					}
+				}
+			}
+		}
+		if f.Parent() != nil {
+			add(f, f.Parent())
+		}
+	}
+	p.callers = idx
+	return idx
+}
+
+// withinOnly: fn is one of the allowed functions, a closure of one, or a helper ALL of whose (library and example)
+// callers are — transitively — within the allowed set. A helper extracted from an allowed function therefore
+// stays allowed; a new caller from elsewhere breaks it.
+func (p *Prog) withinOnly(fn *ssa.Function, allowed func(*ssa.Function) bool) bool {
+	return p.withinOnlyRec(fn, allowed, map[*ssa.Function]bool{})
+}
+
+func (p *Prog) withinOnlyRec(fn *ssa.Function, allowed func(*ssa.Function) bool, seen map[*ssa.Function]bool) bool {
+	if fn == nil {
+		return false
+	}
+	if allowed(fn) {
+		return true
+	}
+	if seen[fn] {
+		return true
+	}
+	seen[fn] = true
+	if fn.Parent() != nil {
+		return p.withinOnlyRec(fn.Parent(), allowed, seen)
+	}
+	// exported functions can be called by anyone
+	if fn.Object() != nil && fn.Object().Exported() {
+		return false
+	}
+	cs := p.callerIndex()[fn]
+	if len(cs) == 0 {
+		return false
+	}
+	for c := range cs {
+		if !p.withinOnlyRec(c, allowed, seen) {
+			return false
+		}
+	}
+	return true
+}
+
+func allowNames(names ...string) func(*ssa.Function) bool {
+	set := map[string]bool{}
+	for _, n := range names {
+		set[n] = true
+	}
+	return func(f *ssa.Function) bool { return set[shortFn(f)] }
+}
